@@ -15,7 +15,7 @@
 #include <stdlib.h>
 #include <string.h>
 
-#define VMAXF 64
+#define VMAXF 4096
 
 struct vcase {
     int nf;
